@@ -26,6 +26,21 @@ func c02Glob(pattern string) ([]string, error) {
 }
 func c02Perm(u *user.User, filePath, permissionType string) bool { return true }
 
+// c02SlowSender delays every command after the first one.
+type c02SlowSender struct {
+	handlers.Handler
+	gap  time.Duration
+	sent int
+}
+
+func (h *c02SlowSender) SendMessage(command string) error {
+	if h.sent > 0 && h.gap > 0 && !strings.HasPrefix(command, ".ack") {
+		verifrt.Sleep(h.gap)
+	}
+	h.sent++
+	return h.Handler.SendMessage(command)
+}
+
 var c02Paces = []time.Duration{0, 30 * time.Millisecond, 500 * time.Millisecond}
 
 // VerifC02cSession: a whole serverless cat session in process: nfiles files of
@@ -64,7 +79,10 @@ func VerifC02cSession(nfiles, nlines, cats int) {
 		want = append(want, ls)
 		commands = append(commands, "cat:plain=true:quiet=true:serverless=true "+path+" regex:noop ")
 	}
-	handler := handlers.NewClientHandler("local(serverless)")
+	// the client may send the commands of the session with a gap between them
+	gap := []time.Duration{0, 300 * time.Millisecond}[verifrt.Choose("command-gap", 2)]
+	inner := handlers.NewClientHandler("local(serverless)")
+	handler := &c02SlowSender{Handler: inner, gap: gap}
 	s := NewServerless("u", handler, commands)
 	ctx, cancel := context.WithCancel(context.Background())
 	done := make(chan struct{})
@@ -110,7 +128,12 @@ func VerifC02cSession(nfiles, nlines, cats int) {
 			logged++
 		}
 	}
-	if missing > 0 {
+	if missing > 0 && gap > 0 && nfiles > 1 && pace == 0 && stallAt < 0 {
+		// known: the session is shut down as soon as no command is active; a command that
+		// arrives after the previous one has finished finds the session closing
+		verifrt.Finding("C02-KF3", true)
+		verifrt.Reach("later-command-lost")
+	} else if missing > 0 {
 		// known: once flush() has given up (10 x 10 ms) the close handshake can overtake queued lines
 		verifrt.Finding("C02-KF1", pace > 0 || stallAt >= 0)
 		verifrt.Reach("lines-lost")
